@@ -190,6 +190,7 @@ type WorkerOut struct {
 	Harness    []string           `json:"harness"`
 	Samples    []interface{}      `json:"samples"`
 	WallS      float64            `json:"wall_s"`
+	MaxHeapMB  int                `json:"max_heap_mb"`
 	TraceHash  map[string]string  `json:"trace_hashes,omitempty"`
 }
 
@@ -255,19 +256,38 @@ func TestWorker(t *testing.T) {
 				last, lastAt = b, time.Now()
 				continue
 			}
-			if time.Since(lastAt) > time.Duration(envInt("VSIM_CASE_TIMEOUT_S", 90))*time.Second {
-				buf := make([]byte, 1<<20)
+			if time.Since(lastAt) > time.Duration(envInt("VSIM_CASE_TIMEOUT_S", 180))*time.Second {
+				// two dumps a few seconds apart: only a goroutine that is executing
+				// library code in both is a library hang
+				buf := make([]byte, 4<<20)
 				n := runtime.Stack(buf, true)
 				fmt.Fprintf(os.Stderr, "WATCHDOG: one case has been running for more than %v\n%s\n", time.Since(lastAt), buf[:n])
+				time.Sleep(5 * time.Second)
+				if beat.Load() != b {
+					last, lastAt = beat.Load(), time.Now()
+					fmt.Fprintf(os.Stderr, "WATCHDOG-CLEARED: the case finished after all\n")
+					continue
+				}
+				n = runtime.Stack(buf, true)
+				fmt.Fprintf(os.Stderr, "WATCHDOG-SECOND-DUMP\n%s\n", buf[:n])
 				os.Exit(3)
 			}
 		}
 	}()
 	minimiseTick = func() { beat.Add(1) }
 	zone := envInt("VSIM_ZONE", w)
+	maxHeap := uint64(0)
 	runOne := func(spec CaseSpec) {
 		spec.Zone = zone
 		beat.Add(1)
+		if out.Cases%200 == 0 {
+			var ms runtime.MemStats
+			runtime.ReadMemStats(&ms)
+			if ms.HeapAlloc > maxHeap {
+				maxHeap = ms.HeapAlloc
+				out.MaxHeapMB = int(maxHeap >> 20)
+			}
+		}
 		writeCur(&spec)
 		res := RunCase(t, spec)
 		out.Cases++
@@ -425,9 +445,12 @@ func TestReplay(t *testing.T) {
 		// child: run with a watchdog so that a non-terminating case is reported
 		go func() {
 			time.Sleep(time.Duration(envInt("VSIM_CASE_TIMEOUT_S", 60)) * time.Second)
-			buf := make([]byte, 1<<20)
+			buf := make([]byte, 4<<20)
 			n := runtime.Stack(buf, true)
 			fmt.Fprintf(os.Stderr, "WATCHDOG: one case has been running for more than 60s\n%s\n", buf[:n])
+			time.Sleep(5 * time.Second)
+			n = runtime.Stack(buf, true)
+			fmt.Fprintf(os.Stderr, "WATCHDOG-SECOND-DUMP\n%s\n", buf[:n])
 			os.Exit(3)
 		}()
 	}
@@ -699,6 +722,9 @@ func driverMain() int {
 		}
 		o := r.out
 		total.Cases += o.Cases
+		if o.MaxHeapMB > total.MaxHeapMB {
+			total.MaxHeapMB = o.MaxHeapMB
+		}
 		total.EnumCases += o.EnumCases
 		total.EnumTotal = o.EnumTotal
 		total.Nontrivial += o.Nontrivial
@@ -821,25 +847,35 @@ func classifyCrash(prop string, cur []byte, stderr, replayDir string) (Violation
 			firstFrame = l
 			break
 		}
-	} else if w := strings.Index(stderr, "WATCHDOG: "); w >= 0 {
-		// a case that never ends: attributable if a running/runnable goroutine is in library code
+	} else if w := strings.LastIndex(stderr, "WATCHDOG: "); w >= 0 && strings.Contains(stderr[w:], "WATCHDOG-SECOND-DUMP") && !strings.Contains(stderr[w:], "WATCHDOG-CLEARED") {
+		// a case that never ends: attributable only if, in both dumps, a running or
+		// runnable goroutine has a library function as its innermost non-runtime
+		// frame (it is executing library code, not parked in the harness)
 		rule = "hang"
 		body = stderr[w:]
-		for _, g := range strings.Split(body, "\n\n") {
-			lines := strings.Split(g, "\n")
-			if len(lines) < 2 || !(strings.Contains(lines[0], "[running") || strings.Contains(lines[0], "[runnable")) {
-				continue
-			}
-			for _, l := range lines[1:] {
-				l = strings.TrimSpace(l)
-				if libFrame(l) {
-					firstFrame = l
-					break
+		parts := strings.SplitN(body, "WATCHDOG-SECOND-DUMP", 2)
+		spin := func(dump string) string {
+			for _, g := range strings.Split(dump, "\n\n") {
+				lines := strings.Split(g, "\n")
+				if len(lines) < 2 || !(strings.Contains(lines[0], "[running") || strings.Contains(lines[0], "[runnable")) {
+					continue
+				}
+				for _, l := range lines[1:] {
+					l = strings.TrimSpace(l)
+					if l == "" || strings.HasPrefix(l, "/") || strings.HasPrefix(l, "runtime.") || strings.HasPrefix(l, "internal/") || strings.HasPrefix(l, "goroutine ") {
+						continue
+					}
+					if libFrame(l) {
+						return l
+					}
+					break // innermost non-runtime frame is not library code
 				}
 			}
-			if firstFrame != "" {
-				break
-			}
+			return ""
+		}
+		a, b2 := spin(parts[0]), spin(parts[1])
+		if a != "" && b2 != "" {
+			firstFrame = b2
 		}
 	} else {
 		return ViolationOut{}, false
@@ -909,6 +945,7 @@ func writeEvidence(verifDir, prop, tier string, seed uint64, total *WorkerOut, d
 		"enumeration_space":         total.EnumTotal,
 		"nontrivial_cases":          total.Nontrivial,
 		"workers":                   nw,
+		"max_worker_heap_mb":        total.MaxHeapMB,
 		"violation_classes_seen":    classes,
 		"known_findings_hit":        knownHits,
 		"real_components":           []string{"gobinlog (Streamer, parser, slave connection)", "gobinlog/replication (all decoders)", "Breeze0806/mysql (connector, handshake, auth, packet framing, read buffer, watcher, Close)", "Breeze0806/go/log"},
